@@ -56,8 +56,13 @@ PendOps == LET ks == SetToSeq(KeysIn(Top))  f == FillOps(2, CFG.K, "n") IN
 \* removed and the free slot taken by another connected node while the candidate waits
 HeadOps == LET ks == SetToSeq(KeysIn(Top)) IN
    FillOps(1, CFG.K, "n") \o <<Iou(ks[CFG.K + 1], "n", "C", "O"), [o |-> "rm", k |-> ks[1]], Iou(ks[CFG.K + 2], "n", "C", "O")>>
-Init == \E pat \in (IF PREFILL = 0 THEN {0} ELSE IF PREFILL >= 97 THEN {PREFILL} ELSE {0, 1, 3, PREFILL}) :
-          /\ script = (IF PREFILL = 0 THEN <<>> ELSE IF PREFILL = 99 THEN IpOps ELSE IF PREFILL = 98 THEN PendOps ELSE IF PREFILL = 97 THEN HeadOps ELSE FillOps(pat, PREFILL, "n"))
+\* scenario "inc": full top bucket, head disconnected (last seen incoming), maxin - 1 connected incoming nodes; a connected incoming
+\* candidate is accepted as pending; then an existing node turns incoming, so that the limit is reached while the candidate waits
+IncOps == LET ks == SetToSeq(KeysIn(Top)) IN
+   [i \in 1..CFG.K |-> Iou(ks[i], "n", IF i = 1 THEN "D" ELSE "C", IF i = 1 \/ (i >= 2 /\ i <= CFG.maxin) THEN "I" ELSE "O")]
+   \o <<Iou(ks[CFG.K + 1], "n", "C", "I"), [o |-> "uns", k |-> ks[CFG.K], st |-> "C", dr |-> "I"]>>
+Init == \E pat \in (IF PREFILL = 0 THEN {0} ELSE IF PREFILL >= 96 THEN {PREFILL} ELSE {0, 1, 3, PREFILL}) :
+          /\ script = (IF PREFILL = 0 THEN <<>> ELSE IF PREFILL = 99 THEN IpOps ELSE IF PREFILL = 98 THEN PendOps ELSE IF PREFILL = 97 THEN HeadOps ELSE IF PREFILL = 96 THEN IncOps ELSE FillOps(pat, PREFILL, "n"))
           /\ tb = EmptyTable(CFG) /\ stamp = <<>>
           /\ lastop = Reset /\ lastret = "ok" /\ hist = <<Reset>> /\ res = [tb |-> <<>>, ret |-> "ok"]
 \* (primed variables are bound in sequence so that Step is evaluated once per successor: TLC
@@ -110,5 +115,10 @@ GoalPendingVsConnectedHead == ~(\E b \in Buckets(CFG) : script = <<>> /\ lastop.
                            /\ (\E i \in 1..Len(hist) : hist[i].o = "rm") /\ hist[Len(hist) - 1].o = "tick"
                            /\ \E k \in KeysIn(b) : (\E i \in 1..Len(hist) : hist[i].o = "iou" /\ hist[i].k = k) /\ (\A i \in 1..Len(hist) : ~(hist[i].o = "rm" /\ hist[i].k = k))
                                                    /\ \A i \in 1..Len(tb[b].nodes) : tb[b].nodes[i].key # k)
+\* the candidate's time has come but the bucket has reached its limit of connected incoming nodes meanwhile: it is discarded
+GoalPendingVsIncomingLimit == ~(\E b \in Buckets(CFG) : script = <<>> /\ lastop.o = "iter" /\ FullB(b) /\ ~tb[b].pend.on
+                           /\ Cardinality({i \in 1..Len(tb[b].nodes) : tb[b].nodes[i].st = "C" /\ tb[b].nodes[i].dr = "I"}) = CFG.maxin
+                           /\ tb[b].nodes[1].st = "D" /\ hist[Len(hist) - 1].o = "tick"
+                           /\ \A i \in 1..Len(tb[b].nodes) : tb[b].nodes[i].key # SetToSeq(KeysIn(Top))[CFG.K + 1])
 GoalBucket0Closest  == ~(lastop.o = "closest" /\ lastop.t % 2 = 1 /\ Len(tb[0].nodes) = 1 /\ Len(lastret) >= 3)
 =============================================================================
